@@ -255,6 +255,12 @@ theorem Evolves.exFin {x x' : Act} (h : Evolves x x') (hf : exFin x.phase = true
   | loc F o ev eff hl => exact stepLocal_exFin F o x ev x' eff hl hf
   | kid slot a e _ _ => subst e; exact ⟨hf, rfl⟩
 
+theorem Evolves.exFin_out {x x' : Act} (h : Evolves x x') (hf : Sched.exFin x.phase = true) : x'.out = x.out := by
+  cases h with
+  | same e => subst e; rfl
+  | loc F o ev eff hl => exact stepLocal_exFin_out F o x ev x' eff hl hf
+  | kid slot a e _ _ => subst e; rfl
+
 /-- identity fields never change -/
 theorem Evolves.ident {x x' : Act} (h : Evolves x x') :
     x'.def_ = x.def_ ∧ x'.kind = x.kind ∧ x'.task = x.task ∧ x'.indirect = x.indirect := by
@@ -339,9 +345,9 @@ theorem step_execs_lookup (P : Program) (F : Flags) (c c' : Config) (l : Label) 
   · have : k ≠ k' := by intro e'; subst e'; rw [hk] at h2; cases h2
     rw [h3, lookup_cons_ne _ _ _ _ this]; exact hk
 
-theorem execResultOf_eq_some (c : Config) (k : Nat) (r : Res) :
+theorem execResultOf_eq_some (c : Config) (k : Nat) (r : Outcome) :
     execResultOf c (some k) = some r ↔
-      ∃ e ex, c.execs.lookup k = some e ∧ c.act? e = some ex ∧ exFin ex.phase = true ∧ ex.res = r := by
+      ∃ e ex, c.execs.lookup k = some e ∧ c.act? e = some ex ∧ exFin ex.phase = true ∧ ex.out = r := by
   unfold execResultOf
   constructor
   · intro h
@@ -367,12 +373,12 @@ theorem execResultOf_eq_some (c : Config) (k : Nat) (r : Res) :
 
 /-- **the outcome of a finished registered execution is stable** -/
 theorem step_execResultOf (P : Program) (F : Flags) (c c' : Config) (l : Label) (h : step P F c l = some c')
-    (k : Nat) (r : Res) (hk : execResultOf c (some k) = some r) : execResultOf c' (some k) = some r := by
+    (k : Nat) (r : Outcome) (hk : execResultOf c (some k) = some r) : execResultOf c' (some k) = some r := by
   rw [execResultOf_eq_some] at hk ⊢
   obtain ⟨e, ex, he, hex, hp, hr⟩ := hk
   obtain ⟨ex', hex', hev⟩ := step_evolves P F c c' l h e ex hex
-  obtain ⟨hp', hr'⟩ := hev.exFin hp
-  exact ⟨e, ex', step_execs_lookup P F c c' l h k e he, hex', hp', hr'.trans hr⟩
+  obtain ⟨hp', _⟩ := hev.exFin hp
+  exact ⟨e, ex', step_execs_lookup P F c c' l h k e he, hex', hp', (hev.exFin_out hp).trans hr⟩
 
 /-- `depResults` only depends on the kids table of the parent and on which kids are done:
 it survives any change that keeps recorded kids and keeps done kids done -/
@@ -440,7 +446,7 @@ theorem replay_done (P : Program) (F : Flags) (c c' : Config) (tr : List Label) 
   replay_inv P F (fun c => c.act? id = some k) (fun c l c' hq hs => step_done P F c c' l hs id k hq hd) c tr c' hk h
 
 theorem replay_execResultOf (P : Program) (F : Flags) (c c' : Config) (tr : List Label)
-    (h : replay P F c tr = some c') (k : Nat) (r : Res) (hk : execResultOf c (some k) = some r) :
+    (h : replay P F c tr = some c') (k : Nat) (r : Outcome) (hk : execResultOf c (some k) = some r) :
     execResultOf c' (some k) = some r :=
   replay_inv P F (fun c => execResultOf c (some k) = some r)
     (fun c l c' hq hs => step_execResultOf P F c c' l hs k r hq) c tr c' hk h
